@@ -5,6 +5,7 @@
 # Build output goes to a shared scratch target dir ($MUT_TARGET, default /tmp/orxsim-mut-target),
 # which the caller removes when the session of mutation runs is over.
 set -u
+HERE="$(cd "$(dirname "$0")/.." && pwd)"
 PATCH="$(realpath "$1")"; shift
 WT=$(mktemp -d /tmp/orx-mut-XXXXXX)
 export VERIF_TARGET_DIR="${MUT_TARGET:-/tmp/orxsim-mut-target}"
@@ -16,9 +17,9 @@ if ! git -C "$WT" apply "$PATCH"; then echo "MUTANT $(basename "$PATCH"): patch 
 export VERIF_DIR_OVERRIDE=1
 SCR=$(mktemp -d /tmp/orx-mut-out-XXXXXX)
 mkdir -p "$SCR/evidence" "$SCR/replays"
-cp /verif/known_findings.json "$SCR/"
+cp "$HERE/known_findings.json" "$SCR/"
 for P in "$@"; do
-  OUT=$(VERIF_REPO="$WT" VERIF_OUT_DIR="$SCR" VERIF_RUNS="${MUT_RUNS:-20000}" /verif/check "$P" quick 2>&1)
+  OUT=$(VERIF_REPO="$WT" VERIF_OUT_DIR="$SCR" VERIF_RUNS="${MUT_RUNS:-20000}" "$HERE/check" "$P" quick 2>&1)
   RC=$?
   FIRST=$(echo "$OUT" | grep -m1 "^violation" | cut -c1-260)
   echo "MUTANT $(basename "$PATCH" .patch) $P rc=$RC $(echo "$OUT" | head -1 | sed 's/.*: seed/seed/' | cut -c1-60) :: $FIRST"
